@@ -227,13 +227,16 @@ CHECKS["C10"] = {
                   "empty text (and in every parsed conventional file of the bounded generator) all 163 read-only calls (listings, 8 typed + 8 defaulted getters "
                   "and the extended getter on present and missing keys with plain and bracketed section names, path/tag queries, writeFile, merge in both roles, "
                   "errString) are executed; the object's canonical form and the bytes a write produces must be identical before and after; for shallow states "
-                  "every ordered pair of calls is checked for order-independence of the answers",
+                  "every ordered pair of calls (second directly after first) is checked for order-independence of the answers and every call is repeated "
+                  "with ERANGE left in errno; a second alphabet uses numbers at the edges of the types (inf, 1e300, 1e-320, 20-digit integer)",
     "level_note": "bounded: depth 4, pairs on depth <= 1, files N<=2 D<=1 (quick); depth 5, pairs on depth <= 2, files N<=3 D<=1 (thorough); trusted: canonical form read from the private struct",
     "rule": "state = canonical object form; invariant = observation unchanged by the battery; non-trivial = state with at least one setter call / file with an entry; distinct by canonical form / by construction",
     "deadline": {"quick": 110, "thorough": 1200},
     "parts": [
         {"name": "bfs-readonly", "harness": "c10", "variant": "asan", "shards": 1, "quick": ["--p0", 0, "--p1", 4, "--p2", 1], "thorough": ["--p0", 0, "--p1", 5, "--p2", 2],
-         "deadline_share": 0.5, "floor": {"quick": 1000, "thorough": 10000}},
+         "deadline_share": 0.4, "floor": {"quick": 1000, "thorough": 10000}},
+        {"name": "bfs-readonly-numeric-edges", "harness": "c10", "variant": "asan", "shards": 1, "quick": ["--p0", 0, "--p1", 2, "--p2", 1, "--p3", 1], "thorough": ["--p0", 0, "--p1", 3, "--p2", 2, "--p3", 1],
+         "deadline_share": 0.1, "floor": {"quick": 100, "thorough": 1000}},
         {"name": "files-readonly", "harness": "c10", "variant": "asan", "quick": ["--p0", 1, "--p1", 2, "--p2", 1], "thorough": ["--p0", 1, "--p1", 3, "--p2", 1],
          "deadline_share": 0.45, "floor": {"quick": 10000, "thorough": 100000}},
         {"name": "layered-objects-readonly", "harness": "c10", "variant": "asan", "shards": 4, "quick": ["--p0", 2], "thorough": ["--p0", 2],
